@@ -36,7 +36,17 @@ type ParamContract struct {
 	Modifies []*Clause
 }
 
+// Behavior is a named case of a function contract: it is verified separately under its assumptions,
+// and exported to callers as assumes ==> ensures.
+type Behavior struct {
+	Name     string
+	Assumes  []*Clause
+	Ensures  []*Clause
+	Loops    map[int]*LoopContract
+}
+
 type FuncContract struct {
+	Behaviors []*Behavior
 	Key        string // normalised name: "NewConn", "Conn.Read"
 	Pkg        string // package path
 	Results    []string
@@ -45,6 +55,10 @@ type FuncContract struct {
 	Modifies   []*Clause
 	Allocates  []string
 	Writes     []string
+	GhostNames []string // ghost parameters: universally quantified in the callee, instantiated by callers via bind
+	GhostTypes []string
+	Checks     []*Clause // like ensures, but may name locals of the function; checked, never assumed by callers
+	Binds      []*Bind
 	Loops      map[int]*LoopContract
 	Params     map[string]*ParamContract
 	Inline     bool
@@ -56,6 +70,13 @@ type FuncContract struct {
 	Line       string
 	Uses       []string // lemma names to assume inside
 	NoSharedAppend bool
+}
+
+// Bind instantiates a ghost parameter for the calls made while evaluating a call expression of the given source text.
+type Bind struct {
+	CallText string
+	Name     string
+	Value    *Clause
 }
 
 type PureDef struct {
@@ -124,7 +145,7 @@ var clauseKeywords = map[string]bool{
 	"writes": true, "loop": true, "invariant": true, "decreases": true, "param": true,
 	"inline": true, "terminates": true, "pure": true, "purerec": true, "axiom": true,
 	"ghost": true, "ghostfn": true, "lemma": true, "extern": true, "functype": true,
-	"trusted": true, "opaque": true, "noshare": true, "index": true, "use": true,
+	"trusted": true, "opaque": true, "noshare": true, "ghostparam": true, "check": true, "bind": true, "behavior": true, "assumes": true, "index": true, "use": true,
 }
 
 // rewriteImplies converts "A ==> B" to "implies(A, B)" and "A <==> B" to "iff(A,B)" at every nesting level.
@@ -389,7 +410,28 @@ func (cs *Contracts) loadFile(path, pkgPath string) error {
 	var cur *FuncContract
 	var curLoop *LoopContract
 	var curParam *ParamContract
+	var curBeh *Behavior
 	for _, l := range lines {
+		if l.kw == "func" || l.kw == "extern" || l.kw == "pure" || l.kw == "purerec" || l.kw == "lemma" || l.kw == "ghost" || l.kw == "ghostfn" || l.kw == "axiom" || l.kw == "functype" {
+			curBeh = nil
+		}
+		switch l.kw {
+		case "behavior":
+			curBeh = &Behavior{Name: strings.TrimSpace(l.rest), Loops: map[int]*LoopContract{}}
+			cur.Behaviors = append(cur.Behaviors, curBeh)
+			curLoop, curParam = nil, nil
+			continue
+		case "assumes":
+			if curBeh == nil {
+				return fmt.Errorf("%s: assumes outside behavior", l.where)
+			}
+			c, err := mkClause(l.rest, l.where)
+			if err != nil {
+				return err
+			}
+			curBeh.Assumes = append(curBeh.Assumes, c)
+			continue
+		}
 		switch l.kw {
 		case "func", "extern":
 			rest := l.rest
@@ -434,6 +476,37 @@ func (cs *Contracts) loadFile(path, pkgPath string) error {
 			for _, n := range strings.Split(l.rest, ",") {
 				cur.Uses = append(cur.Uses, strings.TrimSpace(n))
 			}
+		case "ghostparam":
+			ns, ts := splitParams(l.rest)
+			cur.GhostNames = append(cur.GhostNames, ns...)
+			cur.GhostTypes = append(cur.GhostTypes, ts...)
+		case "check":
+			c, err := mkClause(l.rest, l.where)
+			if err != nil {
+				return err
+			}
+			cur.Checks = append(cur.Checks, c)
+		case "bind":
+			// bind "call text" name = expr
+			rest := strings.TrimSpace(l.rest)
+			if !strings.HasPrefix(rest, "\"") {
+				return fmt.Errorf("%s: bind syntax: bind \"call text\" name = expr", l.where)
+			}
+			j := strings.Index(rest[1:], "\"")
+			if j < 0 {
+				return fmt.Errorf("%s: bind: unterminated call text", l.where)
+			}
+			callText := rest[1 : 1+j]
+			rest = strings.TrimSpace(rest[2+j:])
+			k := strings.Index(rest, "=")
+			if k < 0 {
+				return fmt.Errorf("%s: bind needs name = expr", l.where)
+			}
+			c, err := mkClause(rest[k+1:], l.where)
+			if err != nil {
+				return err
+			}
+			cur.Binds = append(cur.Binds, &Bind{CallText: callText, Name: strings.TrimSpace(rest[:k]), Value: c})
 		case "requires", "ensures", "invariant", "decreases", "modifies":
 			if l.kw == "modifies" {
 				for _, p := range splitTop(l.rest, ",") {
@@ -470,6 +543,8 @@ func (cs *Contracts) loadFile(path, pkgPath string) error {
 				curParam.Ensures = append(curParam.Ensures, c)
 			case l.kw == "requires":
 				cur.Requires = append(cur.Requires, c)
+			case l.kw == "ensures" && curBeh != nil:
+				curBeh.Ensures = append(curBeh.Ensures, c)
 			case l.kw == "ensures":
 				cur.Ensures = append(cur.Ensures, c)
 			}
@@ -491,7 +566,11 @@ func (cs *Contracts) loadFile(path, pkgPath string) error {
 			}
 			curLoop = &LoopContract{N: n, Hint: hint}
 			curParam = nil
-			cur.Loops[n] = curLoop
+			if curBeh != nil {
+				curBeh.Loops[n] = curLoop
+			} else {
+				cur.Loops[n] = curLoop
+			}
 		case "index":
 			curLoop.IndexName = strings.TrimSpace(l.rest)
 		case "param", "functype":
